@@ -26,6 +26,7 @@ NOGO = [
     [[5, 5], [25, 5], [25, 15], [5, 15]], [[0, 0], [30, 0], [0, 30]], [[10, 10], [30, 10], [30, 30]],
     [[15, 0], [30, 15], [15, 30], [0, 15]], [[0, 20], [30, 20], [30, 25], [0, 25]], [[12.5, 2.5], [17.5, 2.5], [17.5, 27.5], [12.5, 27.5]],
     [[5, 5], [10, 5], [10, 10], [5, 10]], [[0, 0], [30, 30], [0, 30]], [[20, 20], [25, 20], [25, 25], [20, 25]],
+    [[7.0, -1.0], [8.0, -1.0], [8.0, 31.0], [7.0, 31.0]], [[22.0, -1.0], [23.0, -1.0], [23.0, 31.0], [22.0, 31.0]],  # 1 m wide easements
 ]
 
 _dom = None
@@ -115,9 +116,13 @@ def check_one(case, res):
     b_min, bx, by = case["spacing"]
     res["evals"] += 1
     try:
-        nested, descs = _dom.polygonal_land_constraint(b_min, bx, by, [[list(p) for p in poly] for poly in props],
-                                                       [[list(p) for p in poly] for poly in nogos] if nogos else [])
-        nested = [list(d) for d in nested]
+        # through the public path: geometry setter -> GeometricConstraintsBiRectangleConstrained -> DesignBiRectangleConstrained
+        from vf import scenarios
+
+        ng_in = [[list(p) for p in (poly[::-1] if case.get("nogo_cw") else poly)] for poly in nogos]
+        m = scenarios.build_manager("constrained", geo={"b_min": b_min, "b_max_x": bx, "b_max_y": by, "property_boundary": [[list(p) for p in poly] for poly in props],
+                                                        "no_go_boundaries": ng_in})
+        nested = [list(d) for d in m._design.coordinates_domain_nested]
     except ValueError as e:
         # reorder_domain on an empty list: no candidate at all survives (e.g. everything is no-go)
         res.bump("generator_valueerror")
@@ -232,6 +237,9 @@ def run_case(case):
                     props = [poly] + ([second] if second else [])
                     c = {"props": props, "nogos": [NOGO[i] for i in ng], "spacing": list(SPACINGS[sp])}
                     check_one(c, res)
+                    if ng and case.get("cw_too"):
+                        c2 = dict(c, nogo_cw=True)  # the same no-go zones listed clockwise
+                        check_one(c2, res)
                     if res["sample"] is None:
                         res["sample"] = c
     return res
@@ -242,16 +250,17 @@ def main(run: core.Run, only=None):
     squares = [[[x, y], [x + 10, y], [x + 10, y + 10], [x, y + 10]] for x in (0, 10, 20) for y in (0, 10, 20)]
     cases = []
     if quick:
-        plan = [(3, 8, 1, [0, 1], [[], [0]], [None]), (4, 40, 3, [0, 3], [[], [3]], [None]), (5, 600, 5, [1], [[], [6]], [None, squares[8]])]
+        plan = [(3, 8, 1, [0, 1], [[], [0]], [None]), (4, 40, 3, [0, 3], [[], [3], [12, 13]], [None]), (5, 600, 5, [1], [[], [6]], [None, squares[8]])]
     else:
         plan = [(3, 1, 0, [0, 1, 2, 3], [[], [0], [4, 9]], [None, squares[4]]), (4, 4, 1, [0, 1, 2, 3], [[], [3], [1, 11]], [None]),
-                (4, 16, 2, [0, 3], [[7], [8], [2, 5]], [None, squares[0], squares[8]]), (5, 60, 7, [0, 1, 3], [[], [6], [10]], [None]),
+                (4, 16, 2, [0, 3], [[7], [8], [2, 5], [12, 13]], [None, squares[0], squares[8]]), (5, 60, 7, [0, 1, 3], [[], [6], [10]], [None]),
                 (6, 900, 11, [1, 2], [[], [3]], [None])]
     for n, stride, offset, sps, ngs, seconds in plan:
         total = len(polygons(n, stride, offset))
         step = 6
         for lo in range(0, total, step):
-            cases.append({"n": n, "stride": stride, "offset": offset, "lo": lo, "hi": min(total, lo + step), "spacings": sps, "nogo_sets": ngs, "seconds": seconds})
+            cases.append({"n": n, "stride": stride, "offset": offset, "lo": lo, "hi": min(total, lo + step), "spacings": sps, "nogo_sets": ngs, "seconds": seconds,
+                          "cw_too": (lo // step) % 2 == 0})
     run.drive(cases, family="lattice-outlines")
     return run.finish(
         rule="property outlines = simple lattice polygons (canonical start, both orientations; thinned by a stated stride per vertex "
